@@ -39,7 +39,9 @@ MANIFEST = {
 
 POOL = ["Sheet 1", "sheet 1", "SHEET 2", "Sheet 2", "Table 1", "table 1", "TABLE 2", "Table 3", "table 3", "Sheet 10", "sheet 02",
         "", " Table 1", "x", "X", "Élan", "élan", "ÉLAN", "Straße", "STRASSE", "straße", "İ", "i̇", "ǅ", "ǆ", "Σ", "ς", "σ", "ΑΣ", "ας",
-        "Ⅷ", "ⅷ", "表", "Table\n1", "Data", "DATA", "data ", "Sheet 3", "Table 4", "table 5"]
+        "Ⅷ", "ⅷ", "表", "Table\n1", "Data", "DATA", "data ", "Sheet 3", "Table 4", "table 5",
+        # canonically equivalent but different strings (composed / decomposed, compatibility code points): distinct names
+        "Caf\u00e9", "Cafe\u0301", "\u00c5ngstr\u00f6m", "\u212bngstr\u00f6m", "A\u030angstro\u0308m", "\uac00", "\u1100\u1161"]
 
 
 class Coll:
